@@ -1,130 +1,38 @@
-(* The model of sm3/sm3.go with every numeric constant taken from a record: rotation amounts, the two
-   T constants, loop bounds, array sizes, index offsets, block and digest size, the constants of pad.
+(* The parts of the model of sm3/sm3.go that are NOT regenerated from the source (Gen/SM3Code.v covers
+   the block body of update/update2 and the length bytes of pad, see SM3CodeTie.v) with their numeric
+   constants taken from a record: the block loop (len(msg) >= 64, msg[64:]), the scratch array sizes,
+   pad's first byte / fill byte / block size / target residue, BlockSize(), Size(), len(p)*8.
    [K_model] holds the values SM3Model.v hard-codes; [K_gen] is built from coq/Gen/SM3Consts.v, i.e.
    from what the translator reads in /repo/sm3/sm3.go on every run.  SM3ConstsProofs.v proves
-   (1) every model function is the parametrised function at K_model and (2) K_gen = K_model; so a
-   change of a rotation amount, a loop bound or a constant in the source breaks a theorem.
+   (1) every such model function is the parametrised function at K_model and (2) K_gen = K_model.
    Definitions only. *)
 From Coq Require Import List NArith Arith.
-From GmsmVerif Require Import Lib.Outcome SM3.SM3Spec SM3.SM3Model Gen.SM3Consts.
+From GmsmVerif Require Import Lib.Outcome SM3.SM3Spec SM3.SM3Model Gen.SM3Consts Gen.SM3Code.
 Import ListNotations.
 Open Scope N_scope.
 
 Record consts : Type := mkConsts {
-  k_p0a : N; k_p0b : N; k_p1a : N; k_p1b : N;               (* p0: 9, 17; p1: 15, 23 *)
-  k_rm0 : N; k_rm1 : N; k_rm2 : N;                           (* leftRotate: x<<(i%32) | x>>(32-i%32) *)
-  k_e1 : N; k_e2 : N;                                        (* expansion: <<<15, <<<7 *)
-  k_lo_ss1 : N; k_lo_a : N; k_lo_ss2 : N; k_lo_b : N; k_lo_f : N;   (* rounds 0-15: 7, 12, 12, 9, 19 *)
-  k_hi_ss1 : N; k_hi_a : N; k_hi_ss2 : N; k_hi_b : N; k_hi_f : N;   (* rounds 16-63 *)
-  k_Tlo : N; k_Thi : N;
-  k_l1 : nat * nat; k_l2 : nat * nat; k_l3 : nat * nat; k_l4 : nat * nat; k_l5 : nat * nat;   (* the five for loops *)
-  k_cond : nat; k_step : nat; k_word : nat;                  (* len(msg) >= 64; msg[64:]; msg[4*i:...] *)
-  k_wlen : nat; k_w1len : nat;                               (* [68]uint32, [64]uint32 *)
-  k_o16 : nat; k_o9 : nat; k_o3 : nat; k_o13 : nat; k_o6 : nat; k_o4 : nat;   (* w[i-16] ... w[i+4] *)
-  k_pad_first : N; k_pad_fill : N;                           (* 0x80, 0x00 *)
-  k_pad_bs : nat; k_pad_target : nat;                        (* blockSize := 64; != 56 *)
-  k_pad_shifts : list N; k_pad_masks : list N;               (* >>56 ... >>0, &0xff *)
-  k_pad_chk_val : nat; k_pad_chk_mod : nat;                  (* len(msg)%64 != 0 *)
-  k_BlockSize : nat; k_Size : nat; k_bits : N;               (* BlockSize(), Size(), len(p)*8 *)
-  k_sum_loop : nat * nat                                     (* for i := 0; i < 8; i++ in Sum *)
+  k_cond : nat; k_step : nat;                                (* for len(msg) >= 64 { ...; msg = msg[64:] } *)
+  k_wlen : nat; k_w1len : nat;                               (* var w [68]uint32; var w1 [64]uint32 *)
+  k_pad_first : N; k_pad_fill : N;                           (* append(msg, 0x80); append(msg, 0x00) *)
+  k_pad_bs : nat; k_pad_target : nat;                        (* blockSize := 64; len(msg)%blockSize != 56 *)
+  k_BlockSize : nat; k_Size : nat; k_bits : N                (* BlockSize(), Size(), len(p)*8 *)
 }.
 
-Definition K_model : consts :=
-  mkConsts 9 17 15 23  32 32 32  15 7  7 12 12 9 19  7 12 12 9 19  0x79cc4519 0x7a879d8a
-           (0, 16)%nat (16, 68)%nat (0, 64)%nat (0, 16)%nat (16, 64)%nat
-           64 64 4  68 64  16 9 3 13 6 4
-           0x80 0  64 56  [56; 48; 40; 32; 24; 16; 8; 0] [0xff; 0xff; 0xff; 0xff; 0xff; 0xff; 0xff; 0xff]
-           0 64  64 32 8  (0, 8)%nat.
+Definition K_model : consts := mkConsts 64 64 68 64 0x80 0 64 56 64 32 8.
 
 Definition gN (l : list N) (i : nat) : N := nth i l 0.
 Definition gn (l : list N) (i : nat) : nat := N.to_nat (nth i l 0).
-Definition gpair (l : list (list N)) (i : nat) : nat * nat := (gn (nth i l []) 0, gn (nth i l []) 1).
 
 Definition K_gen : consts :=
-  mkConsts (gN gen_p0_rots 0) (gN gen_p0_rots 1) (gN gen_p1_rots 0) (gN gen_p1_rots 1)
-           (gN gen_leftRotate_lits 0) (gN gen_leftRotate_lits 1) (gN gen_leftRotate_lits 2)
-           (gN gen_update_rots 0) (gN gen_update_rots 1)
-           (gN gen_update_rots 2) (gN gen_update_rots 3) (gN gen_update_rots 4) (gN gen_update_rots 5) (gN gen_update_rots 6)
-           (gN gen_update_rots 7) (gN gen_update_rots 8) (gN gen_update_rots 9) (gN gen_update_rots 10) (gN gen_update_rots 11)
-           (gN gen_update_T 0) (gN gen_update_T 1)
-           (gpair gen_update_loops 0) (gpair gen_update_loops 1) (gpair gen_update_loops 2)
-           (gpair gen_update_loops 3) (gpair gen_update_loops 4)
-           (gn gen_update_conds 0) (gn gen_update_slices 1) (gn gen_update_slices 0)
+  mkConsts (gn gen_update_conds 0) (N.to_nat (last gen_update_slices 0))
            (gn gen_update_arrays 0) (gn gen_update_arrays 1)
-           (gn gen_update_w_minus 0) (gn gen_update_w_minus 1) (gn gen_update_w_minus 2)
-           (gn gen_update_w_minus 3) (gn gen_update_w_minus 4) (gn gen_update_w_plus 0)
            (gN gen_pad_appends 0) (gN gen_pad_appends 1)
            (gn gen_pad_assigns 0) (gn gen_pad_neqs 0)
-           gen_pad_shifts gen_pad_masks
-           (gn gen_pad_neqs 1) (gn gen_pad_neqs 2)
-           (N.to_nat gen_BlockSize) (N.to_nat gen_Size) (gN gen_Write_muls 0)
-           (gpair gen_Sum_loops 0).
-
-(* the shape of the source: how many constants of each kind it contains *)
-Definition gen_shape : list nat :=
-  [length gen_p0_rots; length gen_p1_rots; length gen_leftRotate_lits; length gen_update_rots; length gen_update_T;
-   length gen_update_loops; length gen_update_conds; length gen_update_arrays; length gen_update_w_minus;
-   length gen_update_w_plus; length gen_update_slices; length gen_pad_appends; length gen_pad_assigns;
-   length gen_pad_neqs; length gen_pad_shifts; length gen_pad_masks; length gen_Write_muls; length gen_Sum_loops].
-Definition model_shape : list nat := [2; 2; 3; 12; 2; 5; 1; 2; 5; 1; 2; 2; 1; 3; 8; 8; 1; 1]%nat.
+           (N.to_nat gen_BlockSize) (N.to_nat gen_Size) (gN gen_Write_muls 0).
 
 Section WithConsts.
   Variable K : consts.
-
-  Definition range (ab : nat * nat) : list nat := seq (fst ab) (snd ab - fst ab).
-
-  Definition leftRotate_K (x i : N) : N :=
-    trunc32 (N.lor (N.shiftl x (i mod k_rm0 K)) (N.shiftr x (k_rm1 K - i mod k_rm2 K))).
-  Definition p0_K (x : N) : N := N.lxor (N.lxor x (leftRotate_K x (k_p0a K))) (leftRotate_K x (k_p0b K)).
-  Definition p1_K (x : N) : N := N.lxor (N.lxor x (leftRotate_K x (k_p1a K))) (leftRotate_K x (k_p1b K)).
-
-  Definition load_w_K (msg : list N) (w : list N) : list N :=
-    fold_left (fun w i =>
-      upd w i (Uint32 (nth (k_word K * i) msg 0) (nth (k_word K * i + 1) msg 0)
-                      (nth (k_word K * i + 2) msg 0) (nth (k_word K * i + 3) msg 0)))
-      (range (k_l1 K)) w.
-
-  Definition expand_w_K (w : list N) : list N :=
-    fold_left (fun w i =>
-      upd w i (N.lxor (N.lxor (p1_K (N.lxor (N.lxor (nth (i - k_o16 K) w 0) (nth (i - k_o9 K) w 0))
-                                            (leftRotate_K (nth (i - k_o3 K) w 0) (k_e1 K))))
-                              (leftRotate_K (nth (i - k_o13 K) w 0) (k_e2 K)))
-                      (nth (i - k_o6 K) w 0)))
-      (range (k_l2 K)) w.
-
-  Definition fill_w1_K (w w1 : list N) : list N :=
-    fold_left (fun w1 i => upd w1 i (N.lxor (nth i w 0) (nth (i + k_o4 K) w 0))) (range (k_l3 K)) w1.
-
-  Definition round_lo_K (w w1 : list N) (r : regs) (i : nat) : regs :=
-    let '(A, B, C, D, E, F, G, H) := r in
-    let SS1 := leftRotate_K (add32 (add32 (leftRotate_K A (k_lo_a K)) E) (leftRotate_K (k_Tlo K) (N.of_nat i))) (k_lo_ss1 K) in
-    let SS2 := N.lxor SS1 (leftRotate_K A (k_lo_ss2 K)) in
-    let TT1 := add32 (add32 (add32 (ff0 A B C) D) SS2) (nth i w1 0) in
-    let TT2 := add32 (add32 (add32 (gg0 E F G) H) SS1) (nth i w 0) in
-    let D := C in let C := leftRotate_K B (k_lo_b K) in let B := A in let A := TT1 in
-    let H := G in let G := leftRotate_K F (k_lo_f K) in let F := E in let E := p0_K TT2 in
-    (A, B, C, D, E, F, G, H).
-
-  Definition round_hi_K (w w1 : list N) (r : regs) (i : nat) : regs :=
-    let '(A, B, C, D, E, F, G, H) := r in
-    let SS1 := leftRotate_K (add32 (add32 (leftRotate_K A (k_hi_a K)) E) (leftRotate_K (k_Thi K) (N.of_nat i))) (k_hi_ss1 K) in
-    let SS2 := N.lxor SS1 (leftRotate_K A (k_hi_ss2 K)) in
-    let TT1 := add32 (add32 (add32 (ff1 A B C) D) SS2) (nth i w1 0) in
-    let TT2 := add32 (add32 (add32 (gg1 E F G) H) SS1) (nth i w 0) in
-    let D := C in let C := leftRotate_K B (k_hi_b K) in let B := A in let A := TT1 in
-    let H := G in let G := leftRotate_K F (k_hi_f K) in let F := E in let E := p0_K TT2 in
-    (A, B, C, D, E, F, G, H).
-
-  Definition block_body_K (w w1 : list N) (r : regs) (msg : list N) : list N * list N * regs :=
-    let '(a, b, c, d, e, f, g, h) := r in
-    let w := load_w_K msg w in
-    let w := expand_w_K w in
-    let w1 := fill_w1_K w w1 in
-    let R := (a, b, c, d, e, f, g, h) in
-    let R := fold_left (round_lo_K w w1) (range (k_l4 K)) R in
-    let R := fold_left (round_hi_K w w1) (range (k_l5 K)) R in
-    let '(A, B, C, D, E, F, G, H) := R in
-    (w, w1, (N.lxor a A, N.lxor b B, N.lxor c C, N.lxor d D, N.lxor e E, N.lxor f F, N.lxor g G, N.lxor h H)).
 
   Definition ge_K (msg : list N) : bool := (length (firstn (k_cond K) msg) =? k_cond K)%nat.
 
@@ -133,7 +41,7 @@ Section WithConsts.
     | [] => r
     | _ :: fuel' =>
       if ge_K msg then
-        let '(w, w1, r) := block_body_K w w1 r msg in
+        let '(w, w1, r) := block_body w w1 r msg in
         block_loop_K fuel' w w1 r (skipn (k_step K) msg)
       else r
     end.
@@ -151,13 +59,13 @@ Section WithConsts.
       if (length msg mod k_pad_bs K =? k_pad_target K)%nat then Ok msg else pad_loop_K fuel' (msg ++ [k_pad_fill K])
     end.
 
+  (* the length bytes are the GENERATED gen_pad_length; the final sanity check (dead code: the length is a
+     multiple of 64 by construction) is kept as in the model *)
   Definition pad_K (sm3 : SM3) : outcome (list N) :=
     let msg := s_unhandleMsg sm3 ++ [k_pad_first K] in
     do msg <- pad_loop_K 64 msg;
-    let l := s_length sm3 in
-    let msg := fold_left (fun msg sm => msg ++ [uint8 (N.land (N.shiftr l (fst sm)) (snd sm))])
-                         (combine (k_pad_shifts K) (k_pad_masks K)) msg in
-    if negb (length msg mod k_pad_chk_mod K =? k_pad_chk_val K)%nat then Panic else Ok msg.
+    let msg := gen_pad_length (s_length sm3) msg in
+    if negb (length msg mod 64 =? 0)%nat then Panic else Ok msg.
 
   Definition Write_K (sm3 : SM3) (p : list N) : SM3 * N :=
     let toWrite := lenN p in
